@@ -104,6 +104,22 @@ CLAIMED = {
    note="Trusted: Coq kernel, extraction+driver, harness (fault-injecting sink/source/device), genzip.py. PARTIAL: 'no writer call panics and no failure is swallowed, for every call sequence and plan' as one Coq invariant theorem is pending; reader-side and append-open faults are decided on the implementation by the oracle only (the reader model has no failing source).",
    technique="Coq proof (sink primitives never panic, failures are errors) + exhaustive single-fault enumeration compared call-by-call with the plan-driven writer model",
    design="8 (C11)"),
+ "C20": dict(
+   text="Machine-checked Coq theorems over a model of several handles on one archive: the handles share the parsed "
+        "metadata and exactly one mutable datum per entry (the atomic data start that find_content stores and only the "
+        "data_start() accessor loads); reader position, open entry, decryption and checksum state belong to one handle.  "
+        "For every archive, every schedule interleaving open / read / close calls of any number of handles in any order, "
+        "every starting state and ANY content of the shared atomics, each handle observes exactly what it observes when "
+        "used alone (induction over the schedule; arbitrary KDF, cipher, MAC, checksum); every value ever stored in an "
+        "atomic is THE data start of its entry, so racing stores agree.  Correspondence: all order-preserving "
+        "interleavings (20-90 per set; thorough up to 1680) of 2-4-call scripts for the original handle and 1-2 clones on "
+        "stored / deflated / ZipCrypto archives and on archives with damaged local headers, model = crate call by call, "
+        "and each handle's projection = its script run alone; 8-16 OS threads each cloning through a shared reference and "
+        "reading all entries in random orders with yields = single-handle reference; Send + Sync of ZipArchive<R> for four "
+        "reader types is a compile-time assertion in the harness.",
+   note="Trusted: Coq kernel, extraction+driver, harness (unsafe lifetime extension to hold entries across calls, std::thread), genzip.py. OS schedules are sampled; the all-interleavings claim is the theorem's, at API-call granularity; that the Rust shares nothing else mutable is by reading the code (types.rs: one AtomicU64 in ZipFileData) and by the Sync assertion.",
+   technique="Coq proof (non-interference of handles by induction over arbitrary schedules) + exhaustive interleaving correspondence + thread stress + compile-time Send/Sync assertion",
+   design="8 (C20)"),
  "C03": dict(
    text="Machine-checked Coq theorems over the reader model: lookup by name returns the LAST entry carrying the decoded "
         "name, an absent name and an out-of-range index are not-found, an undecodable method fails that entry only.  "
